@@ -169,6 +169,8 @@ JSniff(e) ==
               THEN {} ELSE {"sniff.unfounded"})
         ELSE (IF d.tv = "SPDX-" \o e.aversion /\ e.res = SPDXT(e.aversion) /\ e.atype = "spdx" /\ e.aenc = "text"
               THEN {} ELSE {"sniff.unfounded"}))
+  \* the remaining accessors are consistent with the version accessor
+  \cup (IF e.res # "" /\ "amajor" \in DOMAIN e /\ e.aversion # e.amajor \o "." \o e.aminor THEN {"sniff.accessors.major-minor"} ELSE {})
   \* an exact declaration of a readable format is detected (any layout of it)
   \cup (IF d.object /\ DStr(d, "bomFormat") = "CycloneDX" /\ DStr(d, "specVersion") \in {"1.3", "1.4", "1.5"}
            /\ d.spdxVersion.t \in {"absent", "string"} /\ e.res # CDXF(DStr(d, "specVersion")) THEN {"sniff.missed"} ELSE {})
@@ -208,6 +210,8 @@ Judge(e) ==
          \* algorithms, the 4 identifier types - each value maps to its name and back to itself
          (IF \A r \in Rng(e.edges) : IF r[1] \in 1..44 THEN r[2] = EdgeName[r[1]] /\ r[3] = r[1] /\ r[4] = r[1] ELSE r[2] = ""
           THEN {} ELSE {"rt.spdx.table.relationships"})
+         \* the second, older public name table (not used by the translators): an observation only
+         \cup {"obs.table.EdgeTypeFromSPDX." \o r[2] : r \in {x \in Rng(e.edges) : x[1] \in 1..44 /\ Len(x) >= 5 /\ x[5] # x[1]}}
          \cup (IF \A r \in Rng(e.hashes) : IF r[1] \in SPDXAlgos THEN r[2] # "" /\ r[3] = r[1] ELSE r[2] = ""
                THEN {} ELSE {"rt.spdx.table.checksums"})
          \cup (IF Cardinality({r[2] : r \in {x \in Rng(e.hashes) : x[1] \in SPDXAlgos}}) = 16 THEN {} ELSE {"rt.spdx.table.checksums"})
@@ -220,6 +224,10 @@ Judge(e) ==
          \cup (IF e.usable /\ e.id1 # e.id2 THEN {"idgen.deterministic"} ELSE {})
     [] e.op = "IDGENSWEEP" -> IF e.bad = <<>> THEN {} ELSE {"idgen.alphabet"}
     [] e.op = "SNIFF" -> JSniff(e)
+    [] e.op = "SNIFFPATH" ->
+         \* a path that cannot be read as a file: an error, no format, no panic
+         (IF e.o.kind = "ok" THEN {} ELSE {"sniff.total." \o e.o.kind})
+         \cup (IF e.o.kind = "ok" /\ ~(e.err /\ e.res = "") THEN {"sniff.path." \o e.case} ELSE {})
     [] OTHER -> {"unknown-op." \o e.op}
 
 Init == l = 1
